@@ -95,12 +95,12 @@ func MatchKnown(kf []KnownFinding, property string, f Finding) *KnownFinding {
 
 // Replay is the replayable artefact of one violation.
 type Replay struct {
-	Property string   `json:"property"`
-	Engine   string   `json:"engine"`
-	Variant  string   `json:"fixture_variant"`
-	Root     string   `json:"root"`
-	Ops      []string `json:"ops"`
-	Finding  Finding  `json:"finding"`
+	Property string                 `json:"property"`
+	Engine   string                 `json:"engine"`
+	Variant  string                 `json:"fixture_variant"`
+	Root     string                 `json:"root"`
+	Ops      []string               `json:"ops"`
+	Finding  Finding                `json:"finding"`
 	Extra    map[string]interface{} `json:"extra,omitempty"`
 }
 
